@@ -460,6 +460,9 @@ impl GraphInline {
 
     pub fn is_ref(&self) -> bool {
         match self {
+            GraphInline::Link(url, _, link_type, _) if *link_type != LinkType::Regular => {
+                model::is_wiki_ref_url(url)
+            }
             GraphInline::Link(url, _, _, _) => model::is_ref_url(url),
             _ => false,
         }
